@@ -37,6 +37,7 @@ Objs  == 1..NObj
 Mons  == 1..NMon
 Trs   == 1..NTr
 
+NonMovableMock == 3                  \* mock id 3 is the driver's non-movable mock type (one function, f(int)); it is never moved
 MonH(k)   == 100 + k                 \* handle of monitor k in a sequence list
 IsMonH(h) == h > 100
 NPar(f)   == IF f = 3 THEN 2 ELSE 1
@@ -317,7 +318,7 @@ DestroyMockStep(st, m) ==
 
 MoveMockStep(st, m, m2) ==
   IF ~(m \in Mocks /\ m2 \in Mocks) THEN Skip(st) ELSE
-  IF ~st.malive[m] \/ st.malive[m2] THEN Skip(st)
+  IF ~st.malive[m] \/ st.malive[m2] \/ m = NonMovableMock \/ m2 = NonMovableMock THEN Skip(st)
   ELSE [st |-> [st EXCEPT !.malive[m2] = TRUE,
                           !.act[m2] = st.act[m], !.sat[m2] = st.sat[m],
                           !.act[m] = [f \in Fns |-> <<>>], !.sat[m] = [f \in Fns |-> <<>>]],
@@ -422,7 +423,7 @@ Step(st, ev) ==
                            ELSE [st |-> [r.st EXCEPT !.exp[a[1]].scoped = TRUE], obs |-> r.obs]
     [] ev.e = "swatch"  -> LET r == WatchStep(st, a) IN
                            IF r.obs.skip = 1 THEN r ELSE [st |-> [r.st EXCEPT !.mon[a[1]].scoped = TRUE], obs |-> r.obs]
-    [] ev.e = "call"    -> IF a[1] \in Mocks /\ a[2] \in Fns /\ st.malive[a[1]]
+    [] ev.e = "call"    -> IF a[1] \in Mocks /\ a[2] \in Fns /\ st.malive[a[1]] /\ (a[1] # NonMovableMock \/ a[2] = 1)
                            THEN CallStep(st, a[1], a[2], IF a[2] = 3 THEN <<a[3], a[4]>> ELSE <<a[3]>>)
                            ELSE Skip(st)
     [] ev.e = "release" -> ReleaseStep(st, a[1])
